@@ -564,6 +564,29 @@ theorem schedule_independent (content : S → V) (ts : Nat → Thread S V L)
 
 end Interleaving
 
+/-- The generic lemma at the slot type of the `World` model (`filled : Slot → Bool`, i.e. the
+    content of a filled slot is `()` — "a function of the node" in its most abstract form).
+    This is the proved part of the OPEN statement below: it *assumes* that the threads'
+    steps are `Transparent` and that their private states are disjoint. -/
+theorem parse_interleaving_partial {L : Type} (ts : Nat → Thread Slot Unit L)
+    (hT : ∀ i, Transparent (fun _ => ()) (ts i)) (σ0 : Cache Slot Unit)
+    (sched : List Nat) (ls : Nat → L) (i : Nat) :
+    (runSched (fun _ => ()) ts (σ0, ls) sched).2 i = iter (alone (ts i) σ0) (sched.count i) (ls i) :=
+  (interleaving_irrelevant (fun _ => ()) ts hT σ0 (fun _ _ _ => rfl) sched σ0 (fun _ _ _ => rfl) ls i).1
+
+-- OPEN parse_interleaving (full statement, not proved — it is a statement about CPython and the
+--   Python source, not about this model): "for the interpreter (`Expression.parse` methods,
+--   `ParserState`) and for generated modules, executed by CPython under the GIL, every
+--   bytecode-level step of a `parse()` call is a `Thread.step` whose private state is that call's
+--   `ParserState`, pair lists and frames, whose shared reads are the rule tables (immutable:
+--   `shared_table_invariant`, `mappings_invariant`, `parsers_frame`) and the lazy caches, whose
+--   only shared writes are fills of `_compiled` / `_expanded` with a value determined by the
+--   node, and which is `Transparent`".  With it, `parse_interleaving_partial` gives: under every
+--   schedule each concurrent `parse()` returns its sequential result.  The harness tests the
+--   hypothesis (write-set monitor: no other write, cache content recomputed and compared; thread
+--   runs with a 1 µs switch interval compared with sequential runs); it is an assumption of the
+--   evidence, listed as such.
+
 /-! ### non-vacuity: the optimizer of the pinned commit breaks history independence
 
   Shared table: `ASCII_ALPHA` (as `ASCIIRule` builds it).  Grammar A: `r = { ASCII_ALPHA }`,
